@@ -12,10 +12,20 @@
 (G c) snippets: every line <= 4 (thorough 5) over {a, blank, tab, 2-byte, 3-byte} x every start <= end x first row
     number in {1, 9, 100} x LF / CRLF, and spans over 2-3 short lines: gutter width, line numbers, shown text (tabs
     expanded), padding and underline length / caret must be what Location!Snippet says.
+(G c') MC_Notes: a diagnostic with a span in one of two files and up to two notes, each without a span or with a span
+    in either file (4 spans per line): one snippet for the diagnostic and one per spanned note, in order; each under a
+    location line naming its own file, row and column and showing the line of THAT file with Location!Snippet's geometry.
+(G d) doc comments (the comment families of C16: indentation incl. a wide Unicode blank x content kinds incl. inline links,
+    block tags with inline and continuation messages, link targets, the malformed catalogue): the comment, its overview,
+    every tag, tag message and inline link lie within the comment's '///' lines (columns up to one past the end of their
+    line), tags start at their '@', an inline link's span covers exactly the tag, every identifier written in a comment
+    (@param / @returns names, unresolved link targets) is covered exactly, the comment ends before the declaration it
+    documents, and every comment lint points into a comment's lines.
 """
 RULE = ("cases = simulate-mode programs (each with ~100-400 element paths) and bounded-exhaustive snippet lines x spans; "
         "distinct = distinct rendered inputs; non-trivial = programs > 12 tokens / lines with a tab or non-ASCII character")
-ASSUMPTIONS = ["diagnostic spans of rule violations are checked with C04's catalogue, doc-comment parts with C16",
+ASSUMPTIONS = ["diagnostic spans of rule violations are checked with C04's catalogue",
+               "where in its first line a doc comment's own span starts is not fixed by the statement (only: within the comment's lines)",
                "columns count characters: a double-width CJK glyph is one column, as the statement says"]
 
 
@@ -30,3 +40,8 @@ def run(ctx):
             label="MC_Syntax_sim", timeout=7200)
     ctx.tlc("MC_Location", "MC_Location_" + ctx.tier, replay="snippet", coverage=False)
     ctx.tlc("MC_Location", "MC_Location_multi", replay="snippet", coverage=False)
+    ctx.tlc("MC_Notes", "MC_Notes", replay="snippet-notes", coverage=False)
+    # (G d) doc comments: the families of C16, looked at for locations only
+    spans_only = {"VERIF_DOC_SPANS": "only"}
+    for cfg in ("dedent2", "dedent3" if ctx.quick else "dedent3all", "tags1", "tags2", "links", "malformed"):
+        ctx.tlc("MC_DocComment", "MC_DocComment_" + cfg, replay="doccomment", coverage=False, env=spans_only, label="MC_DocComment_%s(spans)" % cfg)
